@@ -84,6 +84,8 @@ Variants(p) ==
                    s \in { t \in Squares : LegalPosition([p EXCEPT !.ep = t]) /\ t # 0 /\ RankOf(t) = (IF p.stm = "w" THEN 5 ELSE 2) } }
       flip == { [q |-> [p EXCEPT !.stm = Other(p.stm), !.ep = 0], rel |-> "diff", why |-> "side to move flipped"] }
       clocks == { [q |-> [p EXCEPT !.half = p.half + 7, !.full = p.full + 11], rel |-> "same", why |-> "clocks changed"] }
+                \cup { [q |-> [p EXCEPT !.half = h, !.full = (IF p.full > h \div 2 + 1 THEN p.full ELSE h \div 2 + 1)], rel |-> "same", why |-> "clocks changed"] :
+                         h \in (IF p.ep # 0 THEN {} ELSE {0, 49, 79, 80, 84, 99, 100, 150}) \ {p.half} }
       pieceSq == { s \in Squares : p.board[s] \notin {Empty, "K", "k"} /\ s % 3 = 0 }
       moved == UNION { { [q |-> [p EXCEPT !.board = Put(Put(p.board, s, Empty), t, p.board[s]), !.castle = {}, !.ep = 0], rel |-> "diff", why |-> "piece moved"] :
                            t \in { u \in Squares : p.board[u] = Empty /\ u % 7 = 1 /\ (KindOf(p.board[s]) # "P" \/ RankOf(u) \notin {0, 7}) } } : s \in pieceSq }
